@@ -21,9 +21,11 @@
 
     The table of accesses is EXTRACTED from the current Go sources on every
     run (tools/accesstab -> Gen/AccessTable.v); [table_ok] is then decided by
-    computation.  That "discipline => no data race under the Go memory model"
-    is an informal argument (every plain access pair is ordered through the
-    publishing / guarding synchronisation), not a theorem: C14 is partial. *)
+    computation.  That "discipline => no data race" is proved over an abstract
+    happens-before execution model in Race/HB*.v; the link between this static
+    table and executions ([static_to_dynamic_esc], including the confinement of
+    the goroutine-owned objects) is an explicit assumption: C14 is partial in
+    exactly that. *)
 From Coq Require Import String List Bool.
 Import ListNotations.
 Open Scope string_scope.
